@@ -67,6 +67,7 @@ struct Cfg {
   int         tcp_read_chunk = 0;   // >0: every TCP read returns at most this many bytes
   int         tcp_write_chunk = 0;  // >0: every TCP send accepts at most this many bytes
   bool        server6 = false;      // second server is IPv6
+  bool        eager_io = false;     // the application services ready descriptors after EVERY event (not only after replies)
   bool        auto_io = false;      // the application services the descriptor right after each reply is queued (reply+io is one event)
 };
 
@@ -203,6 +204,8 @@ struct Transmission {
   bool        in_closure = false;
   int         src_variant = 0;     // local address variant of the socket it was sent from
   long        seq = 0;
+  bool        batched = false;  // TCP frame flushed together with earlier frames in one send(): queued at an unknown earlier moment
+  long        decision_seq = 0; // when the server for this transmission was chosen (TCP: when the connection was opened)
   int         ref_fail[8] = { 0 }; // reference health table (from the public server-state callbacks) at send time
   int64_t     last_fail_us[8] = { 0 };
 };
@@ -223,6 +226,10 @@ struct VSock {
   int                created_seq = 0;
   int64_t            out_blocked = 0;
   int                local_variant = 0; // local address the socket was bound to at connect() time
+  long               connect_seq = 0;
+  bool               conn_fail_logged = false;
+  int                ref_fail_at_connect[8] = { 0 };
+  int64_t            last_fail_at_connect[8] = { 0 };
   std::vector<std::pair<size_t, int>> tcp_pkts; // (end offset in instream, packet serial) // FS_SEND_WOULDBLOCK happened and nothing was written since
 };
 
@@ -294,6 +301,11 @@ struct World {
   uint64_t         fail_at = 0;  // C14: 1-based index of the allocation (counted from channel set-up) that fails; 0 = none
   std::vector<int> write_plan; // C20: bytes each successive TCP send() accepts (0 = would-block); exhausted => accept everything
   size_t           write_pos = 0;
+  struct NetFail {
+    long seq;
+    int  server, fd;
+  };
+  std::vector<NetFail> net_fails; // injected socket failures the library must count against a server (-1: server unknown)
   std::vector<int> flush_evs; // event indexes of reinit / server membership changes (the cache must be empty after each)
   bool        nested_cb = false;
   int         cb_depth = 0;
